@@ -50,6 +50,17 @@ static char *h_strrchr (const char *s, int c)
     }
 }
 
+static char *h_strstr (const char *h, const char *n)
+{
+  for (;; h++)
+    {
+      size_t i = 0;
+      while (n[i] && h[i] == n[i]) i++;
+      if (!n[i]) return (char *) h;
+      if (!*h) return NULL;
+    }
+}
+
 static int h_memcmp (const void *a, const void *b, size_t n)
 {
   const unsigned char *p = a, *q = b;
@@ -63,17 +74,19 @@ static int h_memcmp (const void *a, const void *b, size_t n)
 static long h_strtol (const char *s, char **end, int base)
 {
   const char *p = s;
-  unsigned long acc = 0, lim;
+  unsigned long acc = 0, lim, cutoff, cutlim;
   int neg = 0, any = 0, over = 0;
   if (base != 10) __llsym_fail (990);
   while (*p == ' ' || (*p >= '\t' && *p <= '\r')) p++;
   if (*p == '-') { neg = 1; p++; }
   else if (*p == '+') p++;
   lim = neg ? (unsigned long) 1 << 63 : ((unsigned long) 1 << 63) - 1;
+  cutoff = lim / 10;                    /* constants: no division by a symbolic value */
+  cutlim = lim % 10;
   while (*p >= '0' && *p <= '9')
     {
       unsigned long d = (unsigned long) (*p - '0');
-      if (acc > (lim - d) / 10) over = 1; else acc = acc * 10 + d;
+      if (acc > cutoff || (acc == cutoff && d > cutlim)) over = 1; else acc = acc * 10 + d;
       any = 1;
       p++;
     }
@@ -103,6 +116,7 @@ static void *h_bsearch (const void *key, const void *base, size_t n, size_t size
 #define strncmp h_strncmp
 #define strchr h_strchr
 #define strrchr h_strrchr
+#define strstr h_strstr
 #define memcmp h_memcmp
 #define strtol h_strtol
 #define bsearch h_bsearch
